@@ -21,7 +21,7 @@ for k, need in enumerate(needs, 1):
     (dst / "meta.json").write_text(json.dumps({
         "property": pid, "needs": need,
         "origin": "fresh sub-agent given only the property text and a scratch worktree of /repo",
-        "ran": "demo.py with and without the patch (tools/seeded_run.py --verify-demo); the sub-agent ran the full pytest suite against the patched worktree (passes)"}, indent=1))
+        "ran": "demo.py with and without the patch (tools/seeded_run.py --verify-demo); the full pytest suite against the patched tree (tools/seeded_run.py --tests; result in seeded/RESULTS.json), also run by the sub-agent"}, indent=1))
     ids.append(dst.name)
-subprocess.run([sys.executable, str(V / "tools" / "seeded_run.py"), "--verify-demo", *ids])
+subprocess.run([sys.executable, str(V / "tools" / "seeded_run.py"), "--verify-demo", "--tests", *ids])
 subprocess.run(f"git -C /repo worktree remove --force /tmp/mw-{pid}{tag}; git -C /repo branch -D mw-{pid}{tag} -q; rm -rf /tmp/mutants/{pid}{tag} /tmp/prompt_{pid}{tag}.txt", shell=True)
